@@ -189,6 +189,20 @@ CLAIMED = {
             'trusted base; tolerance 1e-6 + 3 phi^2 + 3 sigma^2 justified by '
             'the projection geometry.',
             'DESIGN.md section 5, C07'),
+    'C18': ('exploration',
+            'Hypothesis property test: patch paths taken to data space, '
+            'flattened by our own Bezier sampling and tested with the non-zero '
+            'winding rule against region.contains; sub-path orientation for '
+            'annuli; positions of point/text/line artists; caller kwargs vs '
+            'stored visual',
+            'Random search over the eight patch classes x parameters/angles x '
+            'plot origins (points with a margin > 0.5 % of the size), '
+            'point/line/text x origins, per-artist visual dictionaries '
+            '(mpl-style and as produced by the DS9 reader) x overriding kwargs.',
+            'matplotlib patch transforms; our own flattening/winding code '
+            '(vf/props/c18.py); matplotlib colour conversion for comparing '
+            'colours.',
+            'DESIGN.md section 5, C18'),
 }
 
 PENDING_REASON = ('check designed (DESIGN.md section 5) but not yet built and '
